@@ -167,7 +167,7 @@ impl Drop for OwnerBuf {
 
 static STATIC_BYTES: [u8; 64] = *b"0123456789abcdefghijklmnopqrstuvwxyzABCDEFGHIJKLMNOPQRSTUVWXYZ+/";
 
-pub const REPRS: &[&str] = &["vec_exact", "vec_spare", "bm_frozen", "bm_split_frozen", "bm_off_frozen", "owner", "static", "bm_halves"];
+pub const REPRS: &[&str] = &["vec_exact", "vec_exact_adv", "vec_spare", "bm_frozen", "bm_split_frozen", "bm_off_frozen", "owner", "static", "bm_halves"];
 
 pub const TASK_OPS: &[&str] = &[
     "clone_shared", "clone", "read", "slice", "split_off", "split_to", "truncate", "advance", "drop", "try_into_mut", "into_mut", "into_vec",
@@ -209,9 +209,9 @@ pub fn gen_program_f(rng: &mut Rng, focus: bool) -> J {
     let mut storages = Vec::new();
     for _ in 0..n_storages {
         let repr = match family {
-            "promotion" => *rng.pick(&["vec_exact", "vec_exact", "bm_frozen", "bm_off_frozen"]),
+            "promotion" => *rng.pick(&["vec_exact", "vec_exact_adv", "vec_exact_adv", "bm_frozen", "bm_off_frozen"]),
             "reclaim" => *rng.pick(&["bm_halves", "bm_halves", "bm_split_frozen"]),
-            _ if focus => *rng.pick(&["vec_exact", "vec_spare", "bm_frozen", "bm_split_frozen", "bm_off_frozen", "owner", "bm_halves", "bm_split_frozen"]),
+            _ if focus => *rng.pick(&["vec_exact", "vec_exact_adv", "vec_spare", "bm_frozen", "bm_split_frozen", "bm_off_frozen", "owner", "bm_halves", "bm_split_frozen"]),
             _ => *rng.pick(REPRS),
         };
         storages.push(J::obj().set("repr", repr).set("n", *rng.pick(&[1usize, 2, 8, 9, 24, 33, 64])).set("seed", rng.next_u64()).set("extra", rng.range(0, 32)));
@@ -225,7 +225,14 @@ pub fn gen_program_f(rng: &mut Rng, focus: bool) -> J {
             init.push(J::obj().set("s", rng.below(n_storages)).set("how", *rng.pick(&["clone", "clone", "slice", "half", "half"])).set("a", rng.below(40)).set("b", rng.below(40)));
         }
         let n_ops = rng.range(1, 6);
-        tasks.push(J::obj().set("init", J::Arr(init)).set("ops", gen_ops(rng, n_ops, family)).set("ret", rng.chance(1, 3)));
+        let mut ops = gen_ops(rng, n_ops, family);
+        if family == "promotion" {
+            // all tasks race to promote the same still-unshared storage
+            if let J::Arr(v) = &mut ops {
+                v.insert(0, J::obj().set("op", "clone_shared").set("h", 0usize).set("a", 0usize).set("b", 0usize).set("s", 0usize));
+            }
+        }
+        tasks.push(J::obj().set("init", if family == "promotion" { J::Arr(vec![]) } else { J::Arr(init) }).set("ops", ops).set("ret", rng.chance(1, 3)));
     }
     let root_early = family != "promotion" && rng.chance(1, 2);
     let strip = |ops: &J| -> J { J::Arr(ops.as_arr().iter().filter(|o| !(root_early && o.str("op") == Some("clone_shared"))).cloned().collect()) };
@@ -670,6 +677,19 @@ fn build_storage(idx: usize, spec: &J) -> (Vec<H>, StorageInfo) {
             info = StorageInfo { idx, base: b.as_ptr() as usize, size: n, heap: true };
             let p = b.as_ptr() as usize;
             out.push(H::new(Real::B(b), data, idx, Some(p), 0));
+        }
+        "vec_exact_adv" => {
+            // still unpromoted (promotable) but the view no longer starts at the buffer start
+            let k = if n > 1 { 1 + extra % (n - 1) } else { 0 };
+            let (b, base) = plat::track(|| {
+                let mut b = Bytes::from(data.clone().into_boxed_slice());
+                let base = b.as_ptr() as usize;
+                b.advance(k);
+                (b, base)
+            });
+            info = StorageInfo { idx, base, size: n, heap: true };
+            let p = b.as_ptr() as usize;
+            out.push(H::new(Real::B(b), data[k..].to_vec(), idx, Some(p), 0));
         }
         "vec_spare" => {
             let b = plat::track(|| {
